@@ -480,6 +480,8 @@ class Fn:
             rd = self.reaching(l, at)
             if len(rd) == 1:
                 ds = rd
+        if len(ds) == 1 and depth <= 0:
+            return (("local", l, "cut"), tuple(projs))      # not followed any further (depth): stands for an expression (see ap_match)
         if len(ds) != 1 or depth <= 0:
             return (("local", l), tuple(projs))
         d = ds[0]
@@ -962,10 +964,11 @@ def ap_match(a, b):
         # two locals are the same value only when they are the same local
         if a[0][0] == "local" and b[0][0] == "local":
             return a[0][1] == b[0][1] and (tuple(a[1]) == tuple(b[1]) or not a[1] or not b[1] or tuple(a[1][-len(b[1]):]) == tuple(b[1]) or tuple(b[1][-len(a[1]):]) == tuple(a[1]))
-        # a cut-off leaf stands for any expression; projections applied to it must be the last ones of the other side
-        if a[0][0] == "local" and (not a[1] or tuple(b[1][-len(a[1]):]) == tuple(a[1])):
+        # a cut-off leaf stands for any expression; projections applied to it must be the last ones of the other side.  (A local
+        # with several definitions is not a cut-off leaf: it is that local, and equal only to itself.)
+        if a[0][0] == "local" and len(a[0]) == 3 and (not a[1] or tuple(b[1][-len(a[1]):]) == tuple(a[1])):
             return True
-        if b[0][0] == "local" and (not b[1] or tuple(a[1][-len(b[1]):]) == tuple(b[1])):
+        if b[0][0] == "local" and len(b[0]) == 3 and (not b[1] or tuple(a[1][-len(b[1]):]) == tuple(b[1])):
             return True
         return a[1] == b[1] and ap_match(a[0], b[0])
     if len(a) != len(b):
